@@ -263,4 +263,37 @@ def build():
              Clause('B3_pending_keeps_the_carry', f'old(self).encoding == Encoding::Base64 && r is Pending ==> final(self).buf@ == {W} && ({W}).len() < 4'),
          ])
     u.close('}')
+    def cut_client_loop(t):
+        # R12 (cut by contract): the client-side response-decoding loop of poll_frame is unit webclient's business; here the
+        # block `if self.client && self.direction == Direction::Decode { .. }` keeps its condition and its body becomes a call of
+        # an opaque function, so that the DISPATCH (which direction runs which function) is what is verified
+        import vxlib
+        code = vxlib.code_mask(t.t)
+        m = re.search(r'if self\.client && self\.direction == Direction::Decode \{', t.t)
+        if not m:
+            t.lost.append('R12 anchor: client decode block of poll_frame')
+            return
+        end = vxlib.match_brace(t.t, code, m.end() - 1)
+        t.edit('R12', m.end(), end - 1, ' return self.verif_client_decode(cx); ', 'client loop cut by contract')
+    u.raw('''impl<B: InnerBody> GrpcWebCall<B> {
+    // the client-side decoding loop of poll_frame: under contract in unit webclient
+    #[verifier::external_body]
+    pub fn verif_client_decode(&mut self, cx: &mut Context) -> (r: Poll<Option<Result<Frame<Bytes>, Status>>>)
+        requires old(self).client && old(self).direction == Direction::Decode
+    { unimplemented!() }
+}
+''')
+    u.fn(C, 'poll_frame', within='impl<B> Body for GrpcWebCall<B>', header=hdr, close=True, body_edits=[cut_client_loop],
+         sig_edits=[lambda t: t.sub_code('R9', r'Self::Data', 'Bytes'), lambda t: t.sub_code('R9', r'Self::Error', 'Status')],
+         requires=['!(old(self).client && old(self).direction == Direction::Decode)'],
+         ensures=[
+             Clause('PF1_a_response_body_is_encoded', """old(self).direction == Direction::Encode ==> (r matches Poll::Ready(Some(Ok(Frame::Data(out)))) ==> final(self).inner.last() is Some && out@ == web_image(old(self).encoding, final(self).inner.last()->Some_0))
+                        && !(r matches Poll::Ready(Some(Ok(Frame::Trailers(_))))) && (r matches Poll::Ready(None) ==> final(self).inner.ended())"""),
+             Clause('PF2_a_binary_request_body_is_forwarded', """old(self).direction == Direction::Decode && old(self).encoding == Encoding::None ==> match r {
+                        Poll::Ready(Some(Ok(Frame::Data(o)))) => (final(self).inner.last() matches Some(Frame::Data(d)) && o@ == d@) && final(self).inner.received() == old(self).inner.received() + o@,
+                        Poll::Ready(None) => final(self).inner.ended(),
+                        _ => true }"""),
+             Clause('PF3_a_text_request_body_is_decoded', "old(self).direction == Direction::Decode && old(self).encoding == Encoding::Base64 ==> (r matches Poll::Ready(Some(Ok(Frame::Data(b)))) ==> ({ let w = %s; let n = ((w.len() / 4) * 4) as int; w.len() >= 4 && b64_dec(w.take(n)) == Some(b@) && final(self).buf@ == w.skip(n) })) && ((r matches Poll::Ready(None)) ==> final(self).inner.ended() && (%s).len() == 0)" % (W, W)),
+             Clause('PF4_an_empty_body_ends_at_once', 'old(self).direction == Direction::Empty ==> (r matches Poll::Ready(None))'),
+         ])
     return u
